@@ -15,16 +15,20 @@ OUT=/verif/seeded/$ID-$V
 [ -f "$S/patch.diff" ] || { echo "no $S/patch.diff"; exit 2; }
 mkdir -p "$OUT"
 export CARGO_NET_OFFLINE=true
-cd "$W" || exit 2
-git checkout -q -- src 2>/dev/null
+# confirmation happens in a scratch worktree at the CURRENT head of /repo (the sub-agent's own worktree may be older)
+C=/tmp/seedconfirm
+if [ ! -d "$C" ]; then git -C /repo worktree add --detach "$C" HEAD >/dev/null 2>&1; fi
+cd "$C" || exit 2
+git checkout -q -- . 2>/dev/null
+if [ "$(git rev-parse HEAD)" != "$(git -C /repo rev-parse HEAD)" ]; then git checkout -q --detach "$(git -C /repo rev-parse HEAD)"; fi
 rm -f tests/seeded_demo_eval.rs
 cp "$S/demo.rs" tests/seeded_demo_eval.rs
 run_demo() { cargo test --offline --test seeded_demo_eval >"$OUT/demo_$1.log" 2>&1; echo $?; }
 CLEAN_RC=$(run_demo clean)
-if ! git apply "$S/patch.diff"; then echo "patch does not apply"; echo '{"confirmed":false,"why":"patch does not apply"}' > "$OUT/results.json"; exit 3; fi
-if ! cargo build --offline >"$OUT/build.log" 2>&1; then echo "does not compile"; git checkout -q -- src; echo '{"confirmed":false,"why":"does not compile"}' > "$OUT/results.json"; exit 3; fi
+if ! git apply "$S/patch.diff"; then echo "patch does not apply"; echo '{"confirmed":false,"why":"patch does not apply to the current head"}' > "$OUT/results.json"; rm -f tests/seeded_demo_eval.rs; exit 3; fi
+if ! cargo build --offline >"$OUT/build.log" 2>&1; then echo "does not compile"; git checkout -q -- src; rm -f tests/seeded_demo_eval.rs; echo '{"confirmed":false,"why":"does not compile"}' > "$OUT/results.json"; exit 3; fi
 BUG_RC=$(run_demo bug)
-BASE=$(/tmp/seed/run_baseline.sh "$W" 2>&1 | grep "baseline tests passing" | tail -1)
+BASE=$(/tmp/seed/run_baseline.sh "$C" 2>&1 | grep "baseline tests passing" | tail -1)
 git checkout -q -- src
 rm -f tests/seeded_demo_eval.rs
 echo "demo clean rc=$CLEAN_RC, with change rc=$BUG_RC, $BASE"
